@@ -25,13 +25,13 @@ class Unit:
     """one wrapper TU + defines -> one generated C file; `entries` = harness functions (VF_HARNESS names) to decide"""
     def __init__(s, prop, tu, name=None, defines=None, entries=None, narrow=32, unwind=6, unwindset=None, objbits=None, timeout=600,
                  tier='quick', exceptions=False, stubs=(), heap=512, slots=1, backend='cadical', cflags=(), rnd=(-3, 9), nvec=300,
-                 kf=None, per_entry=None, skip_entries=(), native_libs=(), wide_also=False, no_overflow_check=False, mustfire=False):
+                 kf=None, per_entry=None, skip_entries=(), native_libs=(), wide_also=False, no_overflow_check=False, mustfire=False, mm=24, fs=None):
         s.prop = prop; s.tu = tu; s.defines = dict(defines or {}); s.entries = entries; s.narrow = narrow; s.unwind = unwind
         s.unwindset = dict(unwindset or {}); s.objbits = objbits; s.timeout = timeout; s.tier = tier; s.exceptions = exceptions
         s.stubs = list(stubs); s.heap = heap; s.slots = slots; s.backend = backend; s.cflags = list(cflags); s.rnd = rnd; s.nvec = nvec
         s.kf = dict(kf or {})            # entry name -> known-finding id (the entry is the finding's twin: expected to fail there)
         s.per_entry = dict(per_entry or {})  # entry -> dict(unwind=..., timeout=..., unwindset=..., objbits=...)
-        s.skip_entries = set(skip_entries); s.native_libs = list(native_libs); s.no_overflow_check = no_overflow_check; s.mustfire = mustfire
+        s.skip_entries = set(skip_entries); s.native_libs = list(native_libs); s.no_overflow_check = no_overflow_check; s.mustfire = mustfire; s.mm = mm; s.fs = fs
         s.name = name or (os.path.splitext(tu)[0] + ''.join('_%s%s' % (k, v) for k, v in sorted(s.defines.items())))
         s.name = re.sub(r'[^A-Za-z0-9_]', '_', s.name)
 
@@ -48,8 +48,17 @@ def sh(cmd, timeout=None, cwd=None, env=None):
 class Ctx:
     def __init__(s, prop, tier, wd, jobs, seed):
         s.prop = prop; s.tier = tier; s.wd = wd; s.seed = seed
-        s.sem = threading.BoundedSemaphore(jobs); s.jobs = jobs
+        s.jobs = jobs; s.free = jobs; s.cv = threading.Condition()
         s.lock = threading.Lock(); s.log = []
+    def acquire(s, k):   # k worker slots, atomically (memory-heavy queries take several)
+        k = min(k, s.jobs)
+        with s.cv:
+            while s.free < k: s.cv.wait()
+            s.free -= k
+        return k
+    def release(s, k):
+        with s.cv:
+            s.free += k; s.cv.notify_all()
     def say(s, msg):
         with s.lock:
             print(msg, flush=True)
@@ -127,7 +136,8 @@ CBMC_BACKENDS = {'cadical': ['--sat-solver', 'cadical'], 'minisat': [], 'kissat'
 def run_cbmc(ctx, u, ir, entry):
     pe = u.per_entry.get(entry, {})
     unwind = pe.get('unwind', u.unwind); timeout = pe.get('timeout', u.timeout); objbits = pe.get('objbits', u.objbits)
-    uws = dict(u.unwindset); uws.update(pe.get('unwindset', {}))
+    uws = {'rt_memmove_v.%d' % i: u.mm for i in range(4)}   # variable-length memmove model (ll2c_rt.h): own bound, checked by unwinding assertions
+    uws.update(u.unwindset); uws.update(pe.get('unwindset', {}))
     narrow = pe.get('narrow', u.narrow)
     cmd = ['cbmc', ir['c'], '-I' + ENG, '--function', 'main_vfh_' + entry, '--unwind', str(unwind), '--unwinding-assertions',
            '--drop-unused-functions', '--json-ui', '--trace', '-DLL2C_HEAP_BYTES=%d' % u.heap]
@@ -135,14 +145,15 @@ def run_cbmc(ctx, u, ir, entry):
     if narrow: cmd += ['-DLL2C_W=%d' % narrow]
     if u.mustfire: cmd += ['-DLL2C_MUSTFIRE']
     if objbits: cmd += ['--object-bits', str(objbits)]
+    if u.fs: cmd += ['--max-field-sensitivity-array-size', str(u.fs)]
     if uws: cmd += ['--unwindset', ','.join('%s:%d' % kv for kv in uws.items())]
     cmd += CBMC_BACKENDS[pe.get('backend', u.backend)]
-    for _ in range(u.slots): ctx.sem.acquire()
+    got = ctx.acquire(pe.get('slots', u.slots))
     try:
         t0 = time.time()
         rc, out, err, t = sh(['/usr/bin/time', '-f', 'RSSKB %M'] + cmd, timeout=timeout)
     finally:
-        for _ in range(u.slots): ctx.sem.release()
+        ctx.release(got)
     rss = 0
     m = re.search(r'RSSKB (\d+)', err or '')
     if m: rss = int(m.group(1))
